@@ -148,6 +148,23 @@ func (c *Ctx) c08Resolve() error {
 				// outside every block zz is a package-level variable
 				add("rs key glob zz", "ok", what)
 			}
+			// (search, also without the model) what local_wins states: a name bound in this function that this body did not
+			// declare as a type is the local, whatever was compiled before
+			if kind != "top" {
+				for ui, u := range uses {
+					bound, typ := u == "zz", false
+					for _, l := range locs {
+						bound = bound || l == u
+					}
+					for _, t := range tys {
+						typ = typ || t == u
+					}
+					c.Rep.Oracle["resolve-local-wins"]++
+					if bound && !typ && got[ui] != "L" {
+						c.Rep.Violate(Violation{Kind: "oracle", Cut: "resolve-local-wins", Input: what, Impl: fmt.Sprintf("use of %s in the last compilation -> %s", u, got[ui]), Oracle: "LOCALGET"})
+					}
+				}
+			}
 			add(line, strings.Join(got, " "), what)
 			c.Rep.Count("resolve-" + kind)
 			c.Rep.Seen(what, len(hist) > 3)
